@@ -47,6 +47,11 @@ SITES = {
     "stringexpr": '<r><t tal:content="string:x${v}y">d</t></r>',
     "nameblock": '<r><p i18n:translate="">x <b i18n:name="n" tal:content="v">d</b> y</p></r>',
     "i18nattr_dq": '<r><t title="${v}" i18n:attributes="title"/></r>',
+    # insertions inside the body of a translated element without explicit id (the rendered body is message id and default)
+    "trbody_interp": '<r><p i18n:translate="">x${v}y</p></r>',
+    "trbody_content": '<r><p i18n:translate="">a<b tal:content="v">d</b>c</p></r>',
+    "trbody_attr": '<r><p i18n:translate="">a<b tal:attributes="t v" u="2">d</b>c</p></r>',
+    "trbody_dict": '<r><p i18n:translate="">a<b tal:attributes="d" u="2">d</b>c</p></r>',
     "content_translate": '<r><t tal:content="v" i18n:translate="">d</t></r>',
     "replace_translate": '<r>x<t tal:replace="v" i18n:translate="">d</t>y</r>',
     # opt-outs
@@ -210,7 +215,7 @@ def _render_site(args):
     viol = []
 
     def render(value):
-        if site == "dictattr":
+        if site in ("dictattr", "trbody_dict"):
             return t(d={"a": value})
         return t(v=value)
     base = render("a")
